@@ -243,6 +243,22 @@ func runMirror(events []string, props []string, seed int, args map[string]string
 	res.Key = s.key(final)
 	res.Trace = events
 	res.Obs, _ = json.Marshal(map[string]any{"end": endKey(final), "writes": writesAfter, "crashed": s.restarts, "pos": posAfter})
+	// Closing probe: a proposed header the node accepted is a header the network may commit (the other validators run
+	// the same code and may have accepted it too). If the voting view ends up holding a header other than the honest
+	// chain's, the network now precommits it (validators that have not precommitted anything else in that round, the
+	// Byzantine one included) and the oracles judge the commit like any other. Not part of the canonical state.
+	if args["noprobe"] != "1" && (o.on["C01"] || o.on["C04"] || o.on["C07"]) {
+		if r, ok := s.probeCommitAccepted(final); ok {
+			s.drain(true)
+			after := s.snapshot()
+			o.afterStep(final, after, applied{ev: s.curEvent, result: r, isNetMsg: true})
+			res.Count("closing_probe:accepted_foreign_header_committed_by_the_network", 1)
+			if args["results"] == "1" {
+				s.results = append(s.results, r+fmt.Sprintf(" => V%d/%d C%d hdrs%d", after.voting.Height, after.voting.Round, after.committing.Height, len(after.headers)))
+				res.Trace = append(append([]string{}, events...), s.curEvent)
+			}
+		}
+	}
 	res.Outcome = fmt.Sprintf("V%d/%d C%d hdrs%d r%d", final.voting.Height, final.voting.Round, final.committing.Height, len(final.headers), s.restarts)
 	_ = commitsAtSeed
 	res.NonTrivial = len(final.headers) > 0 || len(s.delivered) > 0
